@@ -145,3 +145,89 @@ def query(model, naming):
     post2, anom2 = project(model, naming)
     return {'a': 'Query', 'args': {}, 'out': 'value', 'post': post, 'anom': pj.anom,
             'ret': ret, 'pure': post == post2}
+
+
+# ---------------------------------------------------------------------------
+# Analysis operations (C13-C17, C19)
+from flamapy.metamodels.fm_metamodel import operations as fm_ops  # noqa: E402
+
+OPS = {
+    'estimate': 'FMEstimatedConfigurationsNumber', 'core': 'FMCoreFeatures', 'atomic': 'FMAtomicSets',
+    'leaves': 'FMLeafFeatures', 'count_leaves': 'FMCountLeafs', 'depth': 'FMMaxDepthTree',
+    'abf': 'FMAverageBranchingFactor', 'ancestors': 'FMFeatureAncestors', 'varpoints': 'FMVariationPoints',
+    'metrics': 'FMMetrics',
+}
+I32 = 2 ** 31 - 1
+
+
+def new_op(op):
+    return getattr(fm_ops, OPS[op])()
+
+
+def _names(naming, seq, bad):
+    out = []
+    for f in seq:
+        if isinstance(f, Feature):
+            out.append(naming.abs(f.name))
+        else:
+            bad.append('non-feature in result: ' + tok(f))
+    return out
+
+
+def empty_ret():
+    return {'n': 0, 'names': [], 'sets': [], 'keys': [], 'vals': [], 'bad': [], 'big': ''}
+
+
+def project_result(op, res, naming):
+    r = empty_ret()
+    bad = r['bad']
+    if op in ('estimate', 'count_leaves', 'depth'):
+        if isinstance(res, int) and not isinstance(res, bool):
+            if -I32 <= res <= I32:
+                r['n'] = res
+            else:
+                r['big'] = str(res)
+        else:
+            bad.append('result not int: ' + tok(res))
+    elif op in ('core', 'leaves', 'ancestors'):
+        if isinstance(res, list):
+            r['names'] = _names(naming, res, bad)
+        else:
+            bad.append('result not list: ' + tok(res))
+    elif op == 'atomic':
+        if isinstance(res, list) and all(isinstance(s, (set, frozenset, list)) for s in res):
+            r['sets'] = [sorted(_names(naming, s, bad)) for s in res]
+        else:
+            bad.append('result not list of sets: ' + tok(res))
+    elif op == 'abf':
+        if isinstance(res, (int, float)) and not isinstance(res, bool) and res == res and abs(res) < 1e6:
+            # value x100 as the nearest integer; the spec checks it against children/branches
+            r['n'] = int(round(res * 100))
+            if abs(res * 100 - r['n']) > 1e-6:
+                bad.append('more than two decimals: ' + tok(res))
+        else:
+            bad.append('result not a number: ' + tok(res))
+    elif op == 'varpoints':
+        if isinstance(res, dict):
+            r['keys'] = _names(naming, list(res.keys()), bad)
+            r['vals'] = [_names(naming, v, bad) if isinstance(v, list) else bad.append('value not list') or []
+                         for v in res.values()]
+        else:
+            bad.append('result not dict: ' + tok(res))
+    return r
+
+
+def exec_op(obj, objid, op, model, naming, fobj=None, seqno=1):
+    """Execute one analysis operation on an existing operation object and log it."""
+    args = {'op': op, 'obj': objid, 'f': naming.abs(fobj.name) if fobj is not None else '', 'seq': seqno}
+    out = 'value'
+    ret = empty_ret()
+    try:
+        if op == 'ancestors':
+            obj.set_feature(fobj)
+        res = obj.execute(model).get_result()
+        ret = project_result(op, res, naming)
+    except Exception as exc:
+        out = 'error:' + errname(exc)
+    post, anom = project(model, naming)
+    return {'a': 'Exec', 'args': args, 'out': out, 'post': post, 'anom': anom, 'ret': ret}
